@@ -14,7 +14,8 @@ from symx import lib, stubs
 
 META = dict(
     bounds=dict(
-        quick=dict(mesh_n="(2,1,1), (2,3,2), (1,2,3)", nvdim="1..4", representations="bin8, bin4 (symbolic values); txt (native)", extend_scalar="on/off", unit="None, 'A/m', 'T'",
+        quick=dict(also="non-finite, signed-zero and extreme values through bin8 / bin4 with and without scalar extension (native); non-ASCII mesh and field units",
+                   mesh_n="(2,1,1), (2,3,2), (1,2,3)", nvdim="1..4", representations="bin8, bin4 (symbolic values); txt (native)", extend_scalar="on/off", unit="None, 'A/m', 'T'",
                    labels="default, custom, containing '_', containing digits", subregions="none / two", corners="int- or float-typed, nm scale / offset",
                    corruption="every single-bit flip and byte increment of the check value; every truncation length of the data block (native sweep)"),
         thorough=dict(mesh_n="as quick plus (3,2,2), (1,1,4)", nvdim="1..5", representations="as quick", extend_scalar="on/off", unit="as quick", labels="as quick", subregions="as quick",
